@@ -309,6 +309,13 @@ pub struct ThreadCase {
     /// writer POPPED and handed to the stream, whatever the stream said about them.
     #[serde(default)]
     pub fail_mode: u8,
+    /// how the queue is built / addressed (c01::build_queue_kind; the all-defaults kind is left
+    /// out because the progress bound is stated in terms of the configured capacity)
+    #[serde(default)]
+    pub qkind: u8,
+    /// stream.flush() answers: every second call fails (waiters must still be released)
+    #[serde(default)]
+    pub flush_fails: bool,
 }
 
 pub fn check_thread(case: &ThreadCase) -> CaseResult {
@@ -325,8 +332,12 @@ pub fn check_thread(case: &ThreadCase) -> CaseResult {
     let mut stream = BqStream::new(results, gate.clone(), log.clone());
     stream.cycle = true;
     stream.jitter = case.jitter.clone();
+    if case.flush_fails {
+        stream.flush_ok = vec![false, true];
+    }
     // 1 us flush interval: the writer reports HitDeadline every 32 pops
-    let (q, handle) = super::c01::build_queue(cap, case.boxed, Duration::from_micros(1), stream);
+    let qkind = [0u8, 1, 2, 4, 5][case.qkind as usize % 5];
+    let (q, handle) = super::c01::build_queue_kind(qkind, cap, case.boxed, Duration::from_micros(1), stream);
     let mut seq = 0u32;
     let mut append = |n: usize, seq: &mut u32| {
         for _ in 0..n {
@@ -473,6 +484,10 @@ pub struct ManyCase {
     /// shut_down() is called while the requests are still pending; they are awaited afterwards
     #[serde(default)]
     pub shutdown_first: bool,
+    #[serde(default)]
+    pub qkind: u8,
+    #[serde(default)]
+    pub flush_fails: bool,
 }
 
 pub fn check_many(case: &ManyCase) -> CaseResult {
@@ -485,7 +500,12 @@ pub fn check_many(case: &ManyCase) -> CaseResult {
     stream.jitter = vec![47];
     let interval = if case.long_interval { Duration::from_secs(30) } else { Duration::from_millis(1) };
     let before = case.before.max(1) as usize + if case.shutdown_first { case.capacity as usize * 3 } else { 0 };
-    let (q, handle) = super::c01::build_queue(cap.max(before + 1), case.boxed, interval, stream);
+    if case.flush_fails {
+        stream.flush_ok = vec![false, true];
+        stream.cycle = true;
+    }
+    let qkind = [0u8, 1, 2, 4, 5][case.qkind as usize % 5];
+    let (q, handle) = super::c01::build_queue_kind(qkind, cap.max(before + 1), case.boxed, interval, stream);
     for s in 0..before {
         let id = Id { p: 0, s: s as u32 };
         log.push(Ev::AppendStart(id));
@@ -652,8 +672,10 @@ pub fn run(ctx: &mut Ctx) {
                 prop::option::of(0u8..40),
                 prop::collection::vec(any::<u8>(), 0..6),
                 prop_oneof![3 => Just(0u8), 4 => 1u8..5],
+                prop_oneof![3 => Just(0u8), 2 => 1u8..5],
+                prop::bool::weighted(0.3),
             )
-                .prop_map(|(capacity, boxed, before, busy, pre_fuel, second_request_after, jitter, fail_mode)| ThreadCase {
+                .prop_map(|(capacity, boxed, before, busy, pre_fuel, second_request_after, jitter, fail_mode, qkind, flush_fails)| ThreadCase {
                     capacity,
                     boxed,
                     before,
@@ -662,6 +684,8 @@ pub fn run(ctx: &mut Ctx) {
                     second_request_after,
                     jitter,
                     fail_mode,
+                    qkind,
+                    flush_fails,
                 })
         },
         check_thread,
@@ -685,8 +709,10 @@ pub fn run(ctx: &mut Ctx) {
                 prop::collection::vec(any::<u8>(), 0..4),
                 any::<bool>(),
                 prop::bool::weighted(0.3),
+                prop_oneof![3 => Just(0u8), 2 => 1u8..5],
+                prop::bool::weighted(0.3),
             )
-                .prop_map(|(capacity, boxed, before, threads, per_thread, jitter, long_interval, shutdown_first)| ManyCase {
+                .prop_map(|(capacity, boxed, before, threads, per_thread, jitter, long_interval, shutdown_first, qkind, flush_fails)| ManyCase {
                     capacity,
                     boxed,
                     before,
@@ -695,6 +721,8 @@ pub fn run(ctx: &mut Ctx) {
                     jitter,
                     long_interval,
                     shutdown_first,
+                    qkind,
+                    flush_fails,
                 })
         },
         check_many,
